@@ -27,6 +27,9 @@ const (
 	CapSelf       = 2 // the object itself
 	CapEchoParam  = 3 // the capability received in params pointer 0
 	FlagTwice     = 1 << 4 // the same capability also in result pointer 1
+	FlagSecond    = 1 << 5 // a second, different fresh object in result pointer 1 (instead of FlagTwice's copy)
+	SecondMark    = 1 << 40 // object-new events of the second object carry serial|SecondMark
+	FlagLateAck   = 1 << 6  // with FlagHold: the delivery is acknowledged only when the gate opens (the object stays busy)
 )
 
 // World holds the local application's recording objects.
@@ -144,7 +147,9 @@ func (o *Object) do(ctx context.Context, call *server.Call) error {
 			echo = p.Interface().Client().AddRef()
 		}
 	}
-	call.Ack()
+	if flags&FlagLateAck == 0 || flags&FlagHold == 0 {
+		call.Ack()
+	}
 	if flags&FlagHold != 0 {
 		select {
 		case <-o.W.gate(serial):
@@ -181,7 +186,14 @@ func (o *Object) do(ctx context.Context, call *server.Call) error {
 		if err := res.SetPtr(0, capnp.NewInterface(res.Segment(), id).ToPtr()); err != nil {
 			return err
 		}
-		if flags&FlagTwice != 0 {
+		if flags&FlagSecond != 0 {
+			no, c2 := o.W.NewObject()
+			o.W.Log.Add(capsim.Event{Kind: "object-new", Hook: no.ID, Call: serial | SecondMark})
+			id2 := res.Message().AddCap(c2)
+			if err := res.SetPtr(1, capnp.NewInterface(res.Segment(), id2).ToPtr()); err != nil {
+				return err
+			}
+		} else if flags&FlagTwice != 0 {
 			id2 := res.Message().AddCap(c.AddRef())
 			if err := res.SetPtr(1, capnp.NewInterface(res.Segment(), id2).ToPtr()); err != nil {
 				return err
